@@ -20,9 +20,15 @@ REPO_TESTS = [
 ]
 
 
-def normalise(ev):
-    """JSON null -> explicit flags (TLC cannot compare values of different types)"""
+def normalise(ev, names=None):
+    """JSON null -> explicit flags (TLC cannot compare values of different types); thread / writer identities ->
+    small integers (TLC integers are 32 bit)"""
     e = dict(ev)
+    names = names if names is not None else {}
+    if e["ev"].startswith("Fit"):
+        e["th"] = names.setdefault(("th", e.get("pid"), e.get("thread")), len(names) + 1)
+    if e["ev"].startswith("Buf"):
+        e["w"] = names.setdefault(("w", e.get("pid"), e.pop("writer", None)), len(names) + 1)
     for k in ("seq", "pid", "thread"):
         e.pop(k, None)
     if e["ev"] in ("Split", "TrainSet"):
@@ -46,9 +52,10 @@ def load(path):
                 ev = json.loads(line)
                 by_pid.setdefault(ev["pid"], []).append(ev)
     out = []
+    names = {}
     for pid in sorted(by_pid):
         evs = sorted(by_pid[pid], key=lambda e: e["seq"])
-        out.append([normalise(e) for e in evs])
+        out.append([normalise(e, names) for e in evs])
     return out
 
 
@@ -87,7 +94,43 @@ def traced_call(fn):
 
 
 OWNERS = {"C02": ("P:Split.", "P:TrainSet.", "P:ModelsSorted.", "P:Predict."),
-          "C03": ("P:ChunkWritten.",), "C05": ("P:Predict.", "P:ChunkWritten."), "C09": ("P:MergeList.",)}
+          "C03": ("P:ChunkWritten.",), "C05": ("P:Predict.", "P:ChunkWritten."), "C09": ("P:MergeList.",),
+          "C10": ("P:ColumnChunks.", "P:PinParsed."), "C12": ("P:Fit",), "C13": ("P:Buf",)}
+
+
+def traced_suite(select=None, timeout=1800):
+    """the repository's whole test suite in ONE pytest process, one trace file per test (plugin drivers/pytest_hooktrace.py
+    points MOKAPOT_VERIF_TRACE at a fresh file before every test's fixtures run).  Only tests that PASS and emitted events
+    become sources.  select: optional list of pytest arguments (files / node ids / -k expressions)."""
+    import shutil
+    d = tempfile.mkdtemp(prefix="hooksuite_")
+    try:
+        here = os.path.dirname(os.path.dirname(os.path.abspath(__file__)))
+        env = dict(os.environ, MOKAPOT_VERIF="1", HOOKTRACE_DIR=d,
+                   PYTHONPATH=here + os.pathsep + os.environ.get("PYTHONPATH", ""))
+        env.pop("MOKAPOT_VERIF_TRACE", None)
+        cmd = ["/venv/bin/python", "-m", "pytest", "-q", "-p", "no:cacheprovider", "-p", "drivers.pytest_hooktrace",
+               "--continue-on-collection-errors"] + list(select or [])
+        p = subprocess.run(cmd, cwd=os.environ.get("VERIF_REPO", "/repo"), env=env, stdout=subprocess.PIPE,
+                           stderr=subprocess.STDOUT, text=True, timeout=timeout)
+        outcomes = {}
+        op = os.path.join(d, "outcomes.ndjson")
+        if os.path.exists(op):
+            for line in open(op):
+                o = json.loads(line)
+                outcomes[o["file"]] = o
+        if not outcomes:
+            raise MachineryError("pytest with the trace plugin produced no outcomes:\n" + p.stdout[-1500:])
+        sources = []
+        for fn, o in sorted(outcomes.items()):
+            if o["outcome"] != "passed":
+                continue
+            evs = load(os.path.join(d, fn))
+            if evs:
+                sources.append({"source": o["nodeid"], "passed": True, "events": [e for proc in evs for e in proc]})
+        return sources, {"tests_run": len(outcomes), "tests_passed": sum(1 for o in outcomes.values() if o["outcome"] == "passed")}
+    finally:
+        shutil.rmtree(d, ignore_errors=True)
 
 
 def validate_events(ctx, sources, prop):
@@ -138,4 +181,51 @@ def validate_events(ctx, sources, prop):
             break
     if bad:
         ctx.negative_controls("HookTrace", "Trace.cfg", bad, name="hook traces: held-out row in a training set / stale file in the merge list")
+    # ... a positive fed that was not accepted / a buffered row never written / a feature column never scanned
+    bad2 = []
+    for t in traces:
+        evs = t["events"]
+        for name, field, delta in (("FitIter", "fed_pos", 1), ("FitLabels", "neg", -1), ("BufFinalize", "left", 1),
+                                   ("BufWrite", "rows", 1)):
+            i = next((i for i, e in enumerate(evs) if e["ev"] == name and (name != "FitIter" or e["it"] >= 1)), None)
+            if i is not None:
+                b = copy.deepcopy(t)
+                b["events"][i][field] += delta
+                if name == "FitIter":
+                    b["events"][i]["fed"] += delta
+                b["tid"] = len(bad2) + 1
+                bad2.append(b)
+        i = next((i for i, e in enumerate(evs) if e["ev"] == "ColumnChunks" and len(e["features"]) >= 1), None)
+        if i is not None:
+            b = copy.deepcopy(t)
+            f0 = b["events"][i]["features"][0]
+            b["events"][i]["chunks"] = [[c for c in ch if c != f0] for ch in b["events"][i]["chunks"]]
+            b["tid"] = len(bad2) + 1
+            bad2.append(b)
+        if len(bad2) >= 16:
+            break
+    if bad2:
+        ctx.negative_controls("HookTrace", "Trace.cfg", bad2, name="hook traces: unaccepted positive fed / decoy not negative / buffered row not written / feature column never scanned")
     return v
+
+
+def hook_phase(ctx, prop, calls=(), repo_select=None, whole_suite=False):
+    """phase 2 for one property: calls = [(label, fn)] run in-process with the hooks on; repo_select = pytest arguments of
+    repository tests to trace (one process, one trace per test); whole_suite = the entire repository suite"""
+    ctx.phase("hook_traces")
+    sources = []
+    for label, fn in calls:
+        try:
+            _, evs = traced_call(fn)
+        except Exception as e:           # the driver's own phase judges what the call does; here only its events matter
+            evs = []
+        if evs:
+            sources.append({"source": label, "events": evs})
+    if whole_suite or repo_select:
+        srcs, info = traced_suite(None if whole_suite else repo_select)
+        sources += srcs
+        ctx.cov.setdefault("hook_traces", {"validated": 0, "events": 0, "drift": []})
+        ctx.cov["hook_traces"]["repo_tests_run"] = info["tests_run"]
+        ctx.cov["hook_traces"]["repo_tests_passed"] = info["tests_passed"]
+        ctx.cov["hook_traces"]["repo_tests_with_events"] = len(srcs)
+    return validate_events(ctx, sources, prop)
